@@ -196,9 +196,19 @@ def component_cases(ctx: Ctx):
         levels = [rng.randint(1, 2 if nx > 1 else 3) for _ in range(nx)]
         comp, fns = make_rough_component(rng, nx, na, ny, levels, kpl)
         mx = (2,) * na + tuple(levels)
-        active = grow(rng, comp, na, mx, rng.randint(1, 6 if nx < 3 else 4))
         names = [f'x{k}' for k in range(nx)]
-        case0 = {'nx': nx, 'na': na, 'ny': ny, 'kpl': kpl, 'levels': levels, 'active': sorted(active)}
+        reused = rng.random() < 0.25
+        if reused:
+            # an earlier life of the same object: trained, evaluated (train and test mode), cleared, and the model replaced: nothing of it may
+            # survive into the surrogate that is built next
+            grow(rng, comp, na, mx, rng.randint(1, 4))
+            xm = {v: np.array(sum(comp.inputs[v].get_domain()) / 2) for v in names}
+            comp.predict(xm, index_set='train'); comp.predict(xm, index_set='test'); comp.gradient(xm)
+            comp.clear(); comp.training_data.clear()
+            fns[:] = [rough_fn({'c0': rng.randint(-2, 2) / 2, 't': [(rng.randint(-3, 3) / 2, rng.random(), rng.randint(-2, 2) / 4) for _ in range(nx)],
+                                'a': [rng.randint(1, 3) / 4 for _ in range(na)]}) for _ in range(ny)]
+        active = grow(rng, comp, na, mx, rng.randint(1, 6 if nx < 3 else 4))
+        case0 = {'nx': nx, 'na': na, 'ny': ny, 'kpl': kpl, 'levels': levels, 'active': sorted(active), 'object_reused_after_clear': reused}
         td = comp.training_data
         for mode in ('train', 'test'):
             iset = comp.active_set if mode == 'train' else comp.active_set.union(comp.candidate_set)
